@@ -70,6 +70,33 @@ func init() {
 		return NoneType{}, nil
 	}, 0, "sort(key=None, reverse=False)")
 
+	ListType.Dict["insert"] = MustNewMethod("insert", func(self Object, args Tuple) (Object, error) {
+		l := self.(*List)
+		var index, item Object
+		err := UnpackTuple(args, nil, "insert", 2, 2, &index, &item)
+		if err != nil {
+			return nil, err
+		}
+		i, err := IndexInt(index)
+		if err != nil {
+			return nil, err
+		}
+		// the index is clamped like a slice bound
+		n := len(l.Items)
+		if i < 0 {
+			i += n
+			if i < 0 {
+				i = 0
+			}
+		}
+		if i > n {
+			i = n
+		}
+		l.Items = append(l.Items, nil)
+		copy(l.Items[i+1:], l.Items[i:])
+		l.Items[i] = item
+		return None, nil
+	}, 0, "insert(index, object) -- insert object before index")
 }
 
 // Type of this List object
